@@ -898,6 +898,91 @@ fn random_case(src: &mut Src) -> Case {
     Case { host, place, cons, outer_marker, ref_component, split_size }
 }
 
+
+// ---------------------------------------------------------------------------------------
+// Bounds on components that reach a type as *copies*: through COMPONENTS OF and through a
+// fixed-type class field. The reference is the same component with literal bounds; the
+// including types are named so that they sort before and after the type they copy from, and
+// some have a reference of their own and some have none.
+
+fn copied_text(hi: i128, lo: i128, top: i128, names: &(&str, &str, &str)) -> String {
+    let (base, before, after) = names;
+    let cls = format!("{}-CLS", base.to_uppercase());
+    format!(
+        "Cp-Mod DEFINITIONS AUTOMATIC TAGS ::= BEGIN\nhi INTEGER ::= {hi}\nlo INTEGER ::= {lo}\nNum ::= INTEGER {{ top({top}), low({lo}) }}\n\
+{base} ::= SEQUENCE {{ n INTEGER (0..hi), s OCTET STRING (SIZE(lo..hi)), k INTEGER {{ top({top}) }} (lo..top), m Num (low..top), l BIT STRING (SIZE(hi, ...)), q IA5String (SIZE(lo..hi)) }}\n\
+{base}-Set ::= SET {{ n INTEGER (0..hi), s OCTET STRING (SIZE(lo..hi)) }}\n\
+{before} ::= SEQUENCE {{ COMPONENTS OF {base}, flag BOOLEAN }}\n\
+{after} ::= SEQUENCE {{ flag BOOLEAN, COMPONENTS OF {base} }}\n\
+{before}-Own ::= SEQUENCE {{ COMPONENTS OF {base}, own INTEGER (lo..hi) }}\n\
+{after}-Own ::= SEQUENCE {{ own INTEGER (lo..hi), COMPONENTS OF {base} }}\n\
+{before}-Set ::= SET {{ COMPONENTS OF {base}-Set, flag BOOLEAN }}\n\
+{after}-Set ::= SET {{ COMPONENTS OF {base}-Set, flag BOOLEAN }}\n\
+{cls} ::= CLASS {{ &n INTEGER (0..hi) UNIQUE, &s OCTET STRING (SIZE(lo..hi)), &Type }}\n\
+{before}-Fld ::= SEQUENCE {{ n {cls}.&n, s {cls}.&s, b BOOLEAN }}\n\
+{after}-Fld ::= SEQUENCE {{ n {cls}.&n, s {cls}.&s, b BOOLEAN }}\n\
+Written ::= SEQUENCE {{ n INTEGER (0..{hi}), s OCTET STRING (SIZE({lo}..{hi})), k INTEGER (lo..{top}), m Num ({lo}..{top}), l BIT STRING (SIZE({hi}, ...)), q IA5String (SIZE({lo}..{hi})) }}\nEND\n"
+    )
+}
+
+fn copied_eval(text: &str, names: &(&str, &str, &str)) -> Result<Option<String>, String> {
+    let out = match comp::compile_rasn1(text, &Cfg::default()) {
+        Outcome::Ok(o) if o.warnings.is_empty() => o,
+        Outcome::Ok(o) => return Err(format!("warnings: {}", o.warnings[0])),
+        Outcome::Err(e) => return Err(e),
+        Outcome::Panic(p) => return Err(format!("panic: {p}")),
+    };
+    let mods = crate::proj::project(&out.generated)?;
+    let m = mods.first().ok_or("no module")?;
+    let w = m.find_struct("Written").ok_or("Written not generated")?;
+    let camel = |n: &str| n.replace('-', "");
+    let (_base, before, after) = names;
+    for incl in [before.to_string(), after.to_string(), format!("{before}-Own"), format!("{after}-Own"), format!("{before}-Set"), format!("{after}-Set"), format!("{before}-Fld"), format!("{after}-Fld")] {
+        let Some(s) = m.find_struct(&camel(&incl)) else { return Err(format!("{incl} not generated")) };
+        for wf in &w.fields {
+            let Some(f) = s.fields.iter().find(|f| f.name == wf.name) else { continue };
+            if f.attrs.value != wf.attrs.value || f.attrs.size != wf.attrs.size || f.ty != wf.ty {
+                return Ok(Some(format!(
+                    "component {} of {incl}: value {:?} size {:?} type {} - written with literal bounds: value {:?} size {:?} type {}",
+                    wf.name, f.attrs.value, f.attrs.size, f.ty, wf.attrs.value, wf.attrs.size, wf.ty
+                )));
+            }
+        }
+    }
+    Ok(None)
+}
+
+const COPIED_NAMES: [(&str, &str, &str); 3] = [("Mm-Base", "Aa-Incl", "Zz-Incl"), ("Base", "Above", "Wrapper"), ("K", "J", "L")];
+
+fn copied_components_leg(ctx: &mut Ctx, tier: Tier, seed: u64) {
+    let n = tier.pick(24, 300);
+    let mut drv = Driver::new(seed, 404, 8);
+    let mut reported = 0;
+    for (i, t) in drv.draw(n).iter().enumerate() {
+        let st = t.current();
+        let mut src = Src::new(&st);
+        let lo = src.range(1, 4);
+        let top = lo + src.range(1, 6);
+        let hi = *src.choose(&[10i128, 12, 200, 255, 256, 70000]);
+        let names = &COPIED_NAMES[i % COPIED_NAMES.len()];
+        let text = copied_text(hi, lo, top, names);
+        match copied_eval(&text, names) {
+            Err(e) => ctx.class(&format!("copied-components:skipped ({})", e.chars().take(40).collect::<String>())),
+            Ok(res) => {
+                ctx.case(&format!("copied:{text}"), true);
+                ctx.class("leg:bounds-on-copied-components (COMPONENTS OF, class fields)");
+                if let Some(d) = res {
+                    ctx.class("fails:copied-components");
+                    if reported < 2 {
+                        reported += 1;
+                        ctx.fail(Failure { finding: None, what: format!("bounds given by references are lost on a copied component: {d}"), replay: json!({"kind": "c04-copied", "names": names, "sources": [{"name": "cp.asn", "text": text}], "observed": d}) });
+                    }
+                }
+            }
+        }
+    }
+}
+
 pub fn run(tier: Tier, seed: u64, replay: Option<String>) -> i32 {
     let mut ctx = Ctx::new("C04", tier, seed);
     ctx.rule = "exhaustive: element sets with 1..2 operands (quick; thorough: 1..3) from single values and ranges over {MIN,-1,0,1,5,300,MAX} \
@@ -913,6 +998,22 @@ pub fn run(tier: Tier, seed: u64, replay: Option<String>) -> i32 {
     ];
     if let Some(path) = replay {
         let v: Value = serde_json::from_str(&std::fs::read_to_string(&path).expect("replay")).expect("json");
+        if v["kind"] == "c04-copied" {
+            let text = v["sources"][0]["text"].as_str().unwrap_or_default().to_string();
+            let nm: Vec<String> = v["names"].as_array().map(|a| a.iter().map(|x| x.as_str().unwrap_or_default().to_string()).collect()).unwrap_or_default();
+            if nm.len() == 3 {
+                match copied_eval(&text, &(nm[0].as_str(), nm[1].as_str(), nm[2].as_str())) {
+                    Err(e) => ctx.inconclusive.push(e),
+                    Ok(res) => {
+                        ctx.case(&text, true);
+                        if let Some(d) = res {
+                            ctx.fail(Failure { finding: None, what: format!("bounds given by references are lost on a copied component: {d}"), replay: v.clone() });
+                        }
+                    }
+                }
+            }
+            return ctx.finish();
+        }
         let c: Case = case_from(&v).expect("case");
         let mut stats: std::collections::BTreeMap<String, (u64, Vec<String>)> = Default::default();
         run_cases(&mut ctx, vec![c], &mut stats);
@@ -1028,6 +1129,7 @@ pub fn run(tier: Tier, seed: u64, replay: Option<String>) -> i32 {
         }
     }
     ctx.extra.insert("failure_signatures".into(), json!(stats.len()));
+    copied_components_leg(&mut ctx, tier, seed);
     ctx.finish()
 }
 
